@@ -149,8 +149,11 @@ def run(chk, repo, tier):
                what='get_%s_SE stores nothing (no cache)' % x,
                found='; '.join(describe(m) for m in muts))
         # float() present (the normal form treats it as transparent)
-        has_float = any(isinstance(n, ast.Call) and dotted(n.func) == 'float'
-                        for n in ast.walk(f))
+        rets = [p_ for p_ in sym.Summarizer(opaque=('float',)).summarize(f)
+                if p_.outcome[0] == 'return']
+        has_float = bool(rets) and all(
+            is_call(p_.outcome[1]) and p_.outcome[1][1] == ('name', 'float')
+            for p_ in rets)
         chk.ob('R20.4', has_float, GD, f, key='float:' + x,
                what='the standard error is converted to a plain float')
     # class-level mutable state on the estimator
